@@ -21,6 +21,7 @@ import (
 	"fmt"
 	"hash"
 	"io"
+	"math"
 	"math/big"
 	"math/rand"
 	"strconv"
@@ -519,6 +520,11 @@ func OidFromString(s string) (asn1.ObjectIdentifier, error) {
 		}
 
 		oid[i] = n
+	}
+
+	//the first two arcs are encoded as one number (40*first + second), which must fit as well
+	if len(oid) >= 2 && oid[0] >= 0 && oid[0] <= 2 && oid[1] > math.MaxInt-40*oid[0] {
+		return nil, fmt.Errorf("cert: the first two arcs of oid '%v' are too large to be encoded", s)
 	}
 
 	return asn1.ObjectIdentifier(oid), nil
